@@ -26,14 +26,20 @@ Definition mkwp (l : list float) (scalar : bool) : wp FCOps :=
 Definition cfin (s : list Z) (l : list CF) : list Z -> CF := of_list (0, 0)%float s l.
 Definition fin (s : list Z) (l : list float) : list Z -> float := of_list 0%float s l.
 Definition closeCF := cfclose 0x1p-40 0x1p-36.
+(* entrywise 2^-36 relative, with an absolute floor of 2^-36 of the LARGEST entry: Kaiser-Bessel weights reach 1e3 per axis, and an
+   entry that cancels to (almost) zero carries the rounding noise of its large terms, whose order of summation differs between
+   the numba loops, the modelled loops and the N-D specification *)
+Definition cf_maxabs (l : list CF) : float := fold_left (fun m v => fmax m (cf_abs v)) l 0%float.
+Definition close_arr (model expect : list CF) : bool :=
+  all2 (cfclose (0x1p-40 + 0x1p-36 * fmax (cf_maxabs model) (cf_maxabs expect))%float 0x1p-36) model expect.
 
 Definition chk_interp (k : Z) tbl (ishape cshape : list Z) (coord : list float) (width param : list float) (ws ps : bool)
            (xin expect : list CF) (osh : list Z) : bool :=
   let kern := pick_kern k tbl in
   match interpolate CFOps FCOps kern wtF ishape cshape (fin cshape coord) (mkwp width ws) (mkwp param ps) (cfin ishape xin) with
   | Ok (osh', y) =>
-      zlist_eqb osh' osh && all2 closeCF (tabulate osh y) expect
-      && all2 closeCF (tabulate osh (interp_spec CFOps FCOps kern wtF ishape cshape (fin cshape coord) (mkwp width ws) (mkwp param ps) (cfin ishape xin))) expect
+      zlist_eqb osh' osh && close_arr (tabulate osh y) expect
+      && close_arr (tabulate osh (interp_spec CFOps FCOps kern wtF ishape cshape (fin cshape coord) (mkwp width ws) (mkwp param ps) (cfin ishape xin))) expect
   | Err _ => false
   end.
 
@@ -42,7 +48,7 @@ Definition chk_gridding (k : Z) tbl (in_shape cshape oshape : list Z) (coord : l
   let kern := pick_kern k tbl in
   match gridding CFOps FCOps kern wtF in_shape cshape oshape (fin cshape coord) (mkwp width ws) (mkwp param ps) (cfin in_shape xin) with
   | Ok y =>
-      all2 closeCF (tabulate oshape y) expect
-      && all2 closeCF (tabulate oshape (gridding_spec CFOps FCOps kern wtF cshape oshape (fin cshape coord) (mkwp width ws) (mkwp param ps) (cfin in_shape xin))) expect
+      close_arr (tabulate oshape y) expect
+      && close_arr (tabulate oshape (gridding_spec CFOps FCOps kern wtF cshape oshape (fin cshape coord) (mkwp width ws) (mkwp param ps) (cfin in_shape xin))) expect
   | Err _ => false
   end.
